@@ -235,6 +235,8 @@ def poly_case(rng, max_v=10, max_ops=4):
         set_rep(rng, case)
     if "blocks" not in case and rng.random() < 0.05:
         case["ops"] = ops + [["es", BAD_ID]]; case["bad"] = len(ops)
+    elif rng.random() < 0.4:
+        case["probe_ops"] = True        # HISTORY: edge_id / vertex_to_edges / vertex_to_vertices queried after EVERY split_edge
     return case
 
 
@@ -248,6 +250,7 @@ def fixed_cases():
         out += [
             {"t": "poly", "V": tri, "E": [[0, 1], [1, 2]], "ops": [["es", 0]], "pre": pre, "tag": "fixed"},
             {"t": "poly", "V": tri, "E": [[0, 1], [1, 2], [0, 2]], "ops": [["es", 2], ["es", 3]], "pre": pre, "tag": "fixed"},
+            {"t": "poly", "V": tri, "E": [[0, 1], [1, 2], [0, 2]], "ops": [["es", 0], ["es", 0], ["es", 3]], "pre": pre, "probe_ops": True, "tag": "fixed"},
             {"t": "surf", "V": two, "F": [[0, 1, 2], [1, 3, 2]], "ops": [["loop", 1]], "pre": pre, "tag": "fixed"},
             {"t": "surf", "V": two, "F": [[0, 1, 2], [1, 3, 2]], "ops": [["fan", 0]], "pre": pre, "tag": "fixed"},
             {"t": "surf", "V": two, "F": [[0, 1, 2], [1, 3, 2]], "ops": [["q3"]], "pre": pre, "tag": "fixed"},
